@@ -1,5 +1,12 @@
 (* Lemmas for C10: what a '-> @join' choice shows, what it runs, and what it offers afterwards.
-   Everything is for every story, every author-code oracle and every state. *)
+   Everything is for every story, every author-code oracle and every state.
+   Follows /repo 310398c (fix F10d): _render_from_join_marker splits the directives of the section text like
+   _render_passage and offers [passage-level choices of section k+1] ++ [block choices of the section text]
+   (join_cands, filtered without a section test); the result carries dir_renders / dir_inputs of that text.
+   Statements that changed with the behaviour: join_result / section_render / join_choice_output (directives),
+   the filter_choices equation in execute_join_choice_inv / join_choice_anatomy / join_choice_log (join_cands
+   instead of section_cands), join_choice_offers (+ join_choice_offers_no_block_choices = the old statement as the
+   special case dir_choices pds = []). *)
 From Coq Require Import String Ascii List Bool ZArith Arith Lia.
 From Bardic Require Import PyStr Value Compiled Engine EngineBase EngineNav EngineParams EngineSem EngineJump
      EngineUndo EngineHooks EngineChoice.
@@ -201,9 +208,53 @@ Definition dir_as_render (d : directive) : rdir :=
   | DChoice _ _ => RDError "choice"%string ""%string
   end.
 
+(* the three parts split_dirs sorts the directives of a rendering into *)
+Definition dir_choices (ds : list directive) : list (choice * option string) := fst (fst (split_dirs ds)).
+Definition dir_inputs (ds : list directive) : list (list (string * string)) := snd (fst (split_dirs ds)).
+Definition dir_renders (ds : list directive) : list rdir := snd (split_dirs ds).
+
+Lemma split_dirs_parts ds : split_dirs ds = (dir_choices ds, dir_inputs ds, dir_renders ds).
+Proof. unfold dir_choices, dir_inputs, dir_renders. destruct (split_dirs ds) as [[a b] c]. reflexivity. Qed.
+
+Lemma dir_choices_app a b : dir_choices (a ++ b) = dir_choices a ++ dir_choices b.
+Proof.
+  unfold dir_choices. induction a as [|d r IH]; simpl.
+  - destruct (split_dirs b) as [[x y] z]. reflexivity.
+  - destruct (split_dirs (r ++ b)) as [[x y] z], (split_dirs r) as [[x' y'] z']. simpl in IH. subst x.
+    destruct d; reflexivity.
+Qed.
+
+Lemma dir_choices_in ds c t : In (c, t) (dir_choices ds) <-> In (DChoice c t) ds.
+Proof.
+  unfold dir_choices. induction ds as [|d r IH]; simpl; [tauto|].
+  destruct (split_dirs r) as [[x y] z]. simpl in IH. destruct d; simpl; rewrite IH.
+  - split; intros [H|H]; auto; left; congruence.
+  - split; [auto|intros [H|H]; [discriminate|auto]].
+  - split; [auto|intros [H|H]; [discriminate|auto]].
+Qed.
+
 (* the passage-level choices written in section sec *)
 Definition section_cands (p : passage) (sec : nat) : list cand :=
   map (fun c => (c, None, false)) (filter (fun c => Nat.eqb (ch_section c) sec) (choices p)).
+
+(* the choices an @if/@for block produced while the text was rendered (a loop choice carries its rendered text) *)
+Definition block_cands (cds : list (choice * option string)) : list cand :=
+  map (fun ct => (fst ct, snd ct, true)) cds.
+
+(* what _render_from_join_marker filters for section sec: the passage-level choices written in section sec, then
+   the block choices cds of the section text; the flag true (with section 0) means "no section test" *)
+Definition join_cands (p : passage) (sec : nat) (cds : list (choice * option string)) : list cand :=
+  map (fun c => (c, None, true)) (filter (fun c => Nat.eqb (ch_section c) sec) (choices p)) ++ block_cands cds.
+
+Lemma join_cands_in p sec cds x :
+  In x (join_cands p sec cds) ->
+  (exists c, x = (c, None, true) /\ In c (choices p) /\ ch_section c = sec) \/
+  (exists c t, x = (c, t, true) /\ In (c, t) cds).
+Proof.
+  unfold join_cands, block_cands. rewrite in_app_iff, !in_map_iff. intros [(c & <- & Hin)|([c t] & <- & Hin)].
+  - left. apply filter_In in Hin. destruct Hin as [A B]. apply Nat.eqb_eq in B. eauto.
+  - right. exists c, t. auto.
+Qed.
 
 Lemma section_cands_in p sec x :
   In x (section_cands p sec) ->
@@ -233,7 +284,7 @@ Proof. reflexivity. Qed.
 (* the result of the turn before the turn_end hooks *)
 Definition join_result (pid : string) (btxt ptxt : string) (bds pds : list directive) (chs : list rchoice)
            (j : option string) : output :=
-  mkOut (join_content btxt ptxt) chs pid (map dir_as_render bds ++ map dir_as_render pds) [] j.
+  mkOut (join_content btxt ptxt) chs pid (map dir_as_render bds ++ dir_renders pds) (dir_inputs pds) j.
 
 (* ---- the anatomy of one successful join choice ---- *)
 Lemma execute_join_choice_inv c s s' o :
@@ -245,7 +296,7 @@ Lemma execute_join_choice_inv c s s' o :
     render_content orc ctxkeys (ch_block (rc_choice c)) s = (s1, Ok (btxt, jb, bds)) /\
     join_tokens p idx = Ok toks /\
     render_content orc ctxkeys toks s1 = (s2, Ok (ptxt, j, pds)) /\
-    filter_choices orc ctxkeys (section_cands p (S idx)) (S idx) s2 = (s3, Ok chs) /\
+    filter_choices orc ctxkeys (join_cands p (S idx) (dir_choices pds)) 0 s2 = (s3, Ok chs) /\
     after_hooks orc ctxkeys st (join_result pid btxt ptxt bds pds chs j)
                 (join_state s3 pid idx (join_result pid btxt ptxt bds pds chs j)) = (s', Ok o).
 Proof.
@@ -280,7 +331,7 @@ Proof.
     - destruct (cur_section s); [unfold ret in Ha; inversion Ha; subst; auto|unfold raise in Ha; inversion Ha]. }
   destruct Ht as [-> Ht].
   apply bind_inv_ok in Hp. destruct Hp as ([[ptxt j] pds] & s2' & Hc & Hp).
-  destruct (split_dirs pds) as [[? ?] ?].
+  rewrite (split_dirs_parts pds) in Hp. cbv beta iota in Hp.
   apply bind_inv_ok in Hp. destruct Hp as (chs & s3 & Hf & Hp). unfold ret in Hp. inversion Hp; subst s2 post. clear Hp.
   exists p, btxt, jb, bds, s1, toks, ptxt, j, pds, s2', chs, s3.
   repeat split; auto.
@@ -292,8 +343,8 @@ Qed.
 Definition section_render (p : passage) (pid : string) (idx : nat) : M output :=
   do toks <- lift_res (join_tokens p idx);
   do '(txt, j, ds) <- render_content orc ctxkeys toks;
-  do chs <- filter_choices orc ctxkeys (section_cands p (S idx)) (S idx);
-  ret (mkOut txt chs pid (map dir_as_render ds) [] j).
+  do chs <- filter_choices orc ctxkeys (join_cands p (S idx) (dir_choices ds)) 0;
+  ret (mkOut txt chs pid (dir_renders ds) (dir_inputs ds) j).
 
 Lemma render_from_join_marker_eq pid idx p s :
   get_passage st pid = Some p ->
@@ -303,9 +354,9 @@ Proof.
   unfold bind, lift_res, ret, raise.
   destruct (after_nth_marker (content p) idx) as [r|]; [|destruct idx; [|reflexivity]].
   - destruct (render_content orc ctxkeys (until_marker r) s) as [s2 [[[ptxt j] pds]|e]]; [|reflexivity].
-    destruct (split_dirs pds) as [[x y] z]. reflexivity.
+    rewrite (split_dirs_parts pds). reflexivity.
   - destruct (render_content orc ctxkeys (until_marker (content p)) s) as [s2 [[[ptxt j] pds]|e]]; [|reflexivity].
-    destruct (split_dirs pds) as [[x y] z]. reflexivity.
+    rewrite (split_dirs_parts pds). reflexivity.
 Qed.
 
 Definition join_turn (p : passage) (pid : string) (c : rchoice) : M output :=
@@ -410,7 +461,7 @@ Lemma join_choice_anatomy c s s' o :
     render_content orc ctxkeys (ch_block (rc_choice c)) s = (s1, Ok (btxt, jb, bds)) /\
     join_tokens p (cur_section s) = Ok toks /\
     render_content orc ctxkeys toks s1 = (s2, Ok (ptxt, j, pds)) /\
-    filter_choices orc ctxkeys (section_cands p (S (cur_section s))) (S (cur_section s)) s2 = (s3, Ok chs) /\
+    filter_choices orc ctxkeys (join_cands p (S (cur_section s)) (dir_choices pds)) 0 s2 = (s3, Ok chs) /\
     let o1 := join_result (cur_pid s) btxt ptxt bds pds chs j in
     trigger_event orc ctxkeys st "turn_end" (join_state s3 (cur_pid s) (cur_section s) o1) = (s4, Ok h) /\
     o = with_hook_output o1 h /\
@@ -432,8 +483,8 @@ Lemma join_choice_output c s s' o p :
     render_content orc ctxkeys (ch_block (rc_choice c)) s = (s1, Ok (btxt, jb, bds)) /\
     render_content orc ctxkeys (between_markers (cur_section s) (content p)) s1 = (s2, Ok (ptxt, j, pds)) /\
     o_content o = o_content (with_hook_output (mkOut (join_content btxt ptxt) [] "" [] [] None) h) /\
-    o_pid o = cur_pid s /\ o_render o = map dir_as_render bds ++ map dir_as_render pds /\
-    o_input o = [] /\ o_jump o = j /\ out (nc s') = Some o.
+    o_pid o = cur_pid s /\ o_render o = map dir_as_render bds ++ dir_renders pds /\
+    o_input o = dir_inputs pds /\ o_jump o = j /\ out (nc s') = Some o.
 Proof.
   intros Hp Hk H. apply join_choice_anatomy in H.
   destruct H as (p' & btxt & jb & bds & s1 & toks & ptxt & j & pds & s2 & chs & s3 & h & s4 &
@@ -492,7 +543,7 @@ Lemma join_choice_log c s s' o :
     render_content orc ctxkeys (ch_block (rc_choice c)) s = (s1, Ok (btxt, jb, bds)) /\
     join_tokens p (cur_section s) = Ok toks /\
     render_content orc ctxkeys toks s1 = (s2, Ok (ptxt, j, pds)) /\
-    filter_choices orc ctxkeys (section_cands p (S (cur_section s))) (S (cur_section s)) s2 = (s3, Ok chs) /\
+    filter_choices orc ctxkeys (join_cands p (S (cur_section s)) (dir_choices pds)) 0 s2 = (s3, Ok chs) /\
     log s1 = log s ++ lb /\ log s2 = log s1 ++ lm /\ log s3 = log s2 ++ lc /\
     log s' = log s ++ lb ++ lm ++ lc ++ lh /\
     Forall low_event (lb ++ lm ++ lc) /\ entered (lb ++ lm ++ lc) = [] /\ hook_runs (lb ++ lm ++ lc) = [] /\
@@ -557,6 +608,34 @@ Proof.
     rewrite L2, L1. unfold cmd_events. simpl. rewrite app_assoc. reflexivity.
 Qed.
 
+(* straight-line text produces no block choice *)
+Lemma render_tok_flat_dirs t s s' txt k ds :
+  flat_tok t = true -> render_tok orc ctxkeys t s = (s', Ok (txt, k, ds)) -> dir_choices ds = [].
+Proof.
+  destruct t; try discriminate; intros _ H; cbn [render_tok] in H.
+  - unfold ret in H. inversion H; subst. reflexivity.
+  - apply bind_inv_ok in H. destruct H as (ctx & s1 & H1 & H). unfold ret in H. inversion H; subst. reflexivity.
+  - apply bind_inv_ok in H. destruct H as ([] & s1 & H1 & H). unfold ret in H. inversion H; subst. reflexivity.
+  - apply bind_inv_ok in H. destruct H as ([] & s1 & H1 & H). unfold ret in H. inversion H; subst. reflexivity.
+  - apply bind_inv_ok in H. destruct H as ([] & s1 & H1 & H). unfold ret in H. inversion H; subst. reflexivity.
+  - apply bind_inv_ok in H. destruct H as (ctx & s1 & H1 & H). unfold ret in H. inversion H; subst. reflexivity.
+  - unfold ret in H. inversion H; subst. reflexivity.
+Qed.
+
+Lemma render_content_flat_dirs l : forall s s' txt j ds,
+  forallb flat_tok l = true -> render_content orc ctxkeys l s = (s', Ok (txt, j, ds)) -> dir_choices ds = [].
+Proof.
+  unfold render_content.
+  induction l as [|t r IH]; intros s s' txt j ds Hf H.
+  - simpl in H. unfold ret in H. inversion H; subst. reflexivity.
+  - simpl in Hf. apply andb_true_iff in Hf. destruct Hf as [Ht Hr].
+    rewrite seqr_cons in H. destruct (render_tok orc ctxkeys t s) as [s1 [[[t1 k] d1]|e]] eqn:E; [|discriminate].
+    destruct (render_tok_flat _ _ _ _ _ _ Ht E) as [-> L1].
+    pose proof (render_tok_flat_dirs _ _ _ _ _ _ Ht E) as D1.
+    destruct (seqr (render_tok orc ctxkeys) r s1) as [s2 [[[t2 j2] d2]|e]] eqn:E2; [|discriminate].
+    inversion H; subst. rewrite dir_choices_app, D1, (IH _ _ _ _ _ Hr E2). reflexivity.
+Qed.
+
 Lemma filter_choices_pure_state cands sec s s' chs :
   Forall (fun x => pure_choice (cand_choice x)) cands ->
   filter_choices orc ctxkeys cands sec s = (s', Ok chs) -> s' = s.
@@ -567,6 +646,16 @@ Lemma section_cands_pure p sec :
 Proof.
   intros H. apply Forall_forall. intros x Hx. apply section_cands_in in Hx. destruct Hx as (c & -> & Hin & _).
   rewrite Forall_forall in H. apply H. exact Hin.
+Qed.
+
+Lemma join_cands_pure p sec cds :
+  Forall pure_choice (choices p) -> Forall (fun ct => pure_choice (fst ct)) cds ->
+  Forall (fun x => pure_choice (cand_choice x)) (join_cands p sec cds).
+Proof.
+  intros H Hb. apply Forall_forall. intros x Hx. apply join_cands_in in Hx.
+  destruct Hx as [(c & -> & Hin & _)|(c & t & -> & Hin)].
+  - rewrite Forall_forall in H. apply H. exact Hin.
+  - rewrite Forall_forall in Hb. apply (Hb _ Hin).
 Qed.
 
 Lemma join_choice_log_flat c s s' o p :
@@ -589,7 +678,8 @@ Proof.
   rewrite (join_tokens_marker p _ Hk) in Ht. inversion Ht; subst toks. clear Ht.
   destruct (render_content_flat _ _ _ _ _ _ Fb Hb) as [_ E1].
   destruct (render_content_flat _ _ _ _ _ _ Fm Hm) as [_ E2].
-  pose proof (filter_choices_pure_state _ _ _ _ _ (section_cands_pure p _ Pc) Hf) as E3. subst s3.
+  rewrite (render_content_flat_dirs _ _ _ _ _ _ Fm Hm) in Hf.
+  pose proof (filter_choices_pure_state _ _ _ _ _ (join_cands_pure p _ [] Pc (Forall_nil _)) Hf) as E3. subst s3.
   rewrite L1 in E1. apply app_inv_head in E1. rewrite L2 in E2. apply app_inv_head in E2.
   assert (lc = []). { rewrite <- (app_nil_r (log s2)) in L3 at 1. apply app_inv_head in L3. auto. }
   subst lb lm lc. exists (btxt, jb, bds), s1, (ptxt, j, pds), s2, lh.
@@ -632,11 +722,12 @@ Proof.
   unfold bind. rewrite IH. destruct (filter_choices orc ctxkeys r sec s2) as [s3 [rs|e]]; reflexivity.
 Qed.
 
-Lemma section_cands_erase p sec :
-  map erase_cand (section_cands p sec) =
-  map (fun c => (c, None, false)) (filter (fun c => Nat.eqb (ch_section c) sec) (map erase_block (choices p))).
+Lemma join_cands_erase p sec cds :
+  map erase_cand (join_cands p sec cds) =
+  map (fun c => (c, None, true)) (filter (fun c => Nat.eqb (ch_section c) sec) (map erase_block (choices p)))
+  ++ map erase_cand (block_cands cds).
 Proof.
-  unfold section_cands. induction (choices p) as [|c r IH]; [reflexivity|].
+  unfold join_cands. rewrite map_app. f_equal. induction (choices p) as [|c r IH]; [reflexivity|].
   cbn [map filter]. rewrite ch_section_erase. destruct (Nat.eqb (ch_section c) sec); cbn [map]; rewrite IH; reflexivity.
 Qed.
 
@@ -651,11 +742,11 @@ Proof.
   2:{ rewrite !(bind_exc (lift_res (Exc e)) _ s s e eq_refl). split; reflexivity. }
   rewrite !(bind_ok (lift_res (Ok toks)) _ s s toks eq_refl).
   destruct (render_content orc ctxkeys toks s) as [s1 [[[txt j] ds]|e]] eqn:Er; bstep Er; [|split; reflexivity].
-  pose proof (filter_choices_erase (section_cands p (S idx)) (S idx) s1) as E1.
-  pose proof (filter_choices_erase (section_cands p' (S idx)) (S idx) s1) as E2.
-  rewrite section_cands_erase in E1, E2. rewrite Hch in E1. rewrite E2 in E1. clear E2.
-  destruct (filter_choices orc ctxkeys (section_cands p (S idx)) (S idx) s1) as [s2 [chs|e]] eqn:F1,
-           (filter_choices orc ctxkeys (section_cands p' (S idx)) (S idx) s1) as [s2' [chs'|e']] eqn:F2;
+  pose proof (filter_choices_erase (join_cands p (S idx) (dir_choices ds)) 0 s1) as E1.
+  pose proof (filter_choices_erase (join_cands p' (S idx) (dir_choices ds)) 0 s1) as E2.
+  rewrite join_cands_erase in E1, E2. rewrite Hch in E1. rewrite E2 in E1. clear E2.
+  destruct (filter_choices orc ctxkeys (join_cands p (S idx) (dir_choices ds)) 0 s1) as [s2 [chs|e]] eqn:F1,
+           (filter_choices orc ctxkeys (join_cands p' (S idx) (dir_choices ds)) 0 s1) as [s2' [chs'|e']] eqn:F2;
     simpl in E1; inversion E1; subst; bstep F1; bstep F2; simpl; split; try reflexivity.
   unfold erase_out. simpl. congruence.
 Qed.
@@ -679,7 +770,8 @@ Proof.
 Qed.
 
 
-(* ---- (4) what is offered afterwards: the enabled passage-level choices written in the next section ---- *)
+(* ---- (4) what is offered afterwards: the enabled passage-level choices written in the next section, then the
+   enabled block choices that the rendering of the next section's text produced ---- *)
 Lemma keep_section_cands s sec p :
   filter (keep orc ctxkeys s sec) (passage_cands p []) = filter (keep orc ctxkeys s sec) (section_cands p sec).
 Proof.
@@ -693,19 +785,53 @@ Proof.
   - rewrite andb_false_r. exact IH.
 Qed.
 
+(* the loop without a section test over the selected passage-level choices = the loop with the section test over
+   all passage-level choices (as render_passage runs it) *)
+Lemma shown_join_passage_part s sec l :
+  map (shown orc ctxkeys s)
+      (filter (keep orc ctxkeys s 0) (map (fun c => (c, None, true)) (filter (fun c => Nat.eqb (ch_section c) sec) l))) =
+  map (shown orc ctxkeys s) (filter (keep orc ctxkeys s sec) (map (fun c => (c, None, false)) l)).
+Proof.
+  induction l as [|c r IH]; [reflexivity|].
+  cbn [map filter]. destruct (Nat.eqb (ch_section c) sec) eqn:E; cbn [map filter].
+  - change (keep orc ctxkeys s 0 (c, None, true)) with (enabled orc ctxkeys s c None && Nat.eqb 0 0).
+    change (keep orc ctxkeys s sec (c, None, false)) with (enabled orc ctxkeys s c None && Nat.eqb (ch_section c) sec).
+    rewrite E. cbn [Nat.eqb]. destruct (enabled orc ctxkeys s c None); cbn [andb map shown]; rewrite IH; reflexivity.
+  - change (keep orc ctxkeys s sec (c, None, false)) with (enabled orc ctxkeys s c None && Nat.eqb (ch_section c) sec).
+    rewrite E, andb_false_r. exact IH.
+Qed.
+
+Lemma shown_join_cands s p sec cds :
+  map (shown orc ctxkeys s) (filter (keep orc ctxkeys s 0) (join_cands p sec cds)) =
+  map (shown orc ctxkeys s) (filter (keep orc ctxkeys s sec) (passage_cands p [])) ++
+  map (shown orc ctxkeys s) (filter (keep orc ctxkeys s 0) (block_cands cds)).
+Proof.
+  unfold join_cands, passage_cands. cbn [map]. rewrite app_nil_r, filter_app, map_app, shown_join_passage_part.
+  reflexivity.
+Qed.
+
+(* a block candidate passes the loop exactly when it is enabled *)
+Lemma keep_block_cand s c t : keep orc ctxkeys s 0 (c, t, true) = enabled orc ctxkeys s c t.
+Proof. unfold keep, dir_section. cbn [Nat.eqb]. apply andb_true_r. Qed.
+
 Lemma join_choice_offers c s s' o :
   execute_join_choice orc ctxkeys st c s = (s', Ok o) ->
-  exists p s2 s3,
+  exists p btxt jb bds s1 toks ptxt j pds s2 s3,
     get_passage st (cur_pid s) = Some p /\
-    filter_choices orc ctxkeys (section_cands p (S (cur_section s))) (S (cur_section s)) s2
+    render_content orc ctxkeys (ch_block (rc_choice c)) s = (s1, Ok (btxt, jb, bds)) /\
+    join_tokens p (cur_section s) = Ok toks /\
+    render_content orc ctxkeys toks s1 = (s2, Ok (ptxt, j, pds)) /\
+    filter_choices orc ctxkeys (join_cands p (S (cur_section s)) (dir_choices pds)) 0 s2
       = (s3, Ok (o_choices o)) /\
     lookup (cur_pid s) (joinidx (nc s')) = Some (S (cur_section s)) /\
-    Forall (fun rc => In (rc_choice rc) (choices p) /\ ch_section (rc_choice rc) = S (cur_section s)) (o_choices o) /\
-    Forall (fun rc => exists dt fd, In (rc_choice rc, dt, fd) (passage_cands p []) /\
-                                    dir_section (rc_choice rc) fd = S (cur_section s)) (o_choices o) /\
-    (Forall pure_choice (choices p) ->
+    Forall (fun rc => (In (rc_choice rc) (choices p) /\ ch_section (rc_choice rc) = S (cur_section s)) \/
+                      (exists t, In (DChoice (rc_choice rc) t) pds)) (o_choices o) /\
+    (Forall pure_choice (choices p) -> Forall (fun ct => pure_choice (fst ct)) (dir_choices pds) ->
      s3 = s2 /\
-     o_choices o = map (shown orc ctxkeys s2) (filter (keep orc ctxkeys s2 (S (cur_section s))) (passage_cands p []))).
+     o_choices o = map (shown orc ctxkeys s2)
+                       (filter (keep orc ctxkeys s2 (S (cur_section s))) (passage_cands p [])) ++
+                   map (shown orc ctxkeys s2)
+                       (filter (keep orc ctxkeys s2 0) (block_cands (dir_choices pds)))).
 Proof.
   intros H. pose proof (execute_join_choice_advances orc ctxkeys st _ _ _ _ H) as (Hj & _). cbv zeta in Hj.
   apply join_choice_anatomy in H.
@@ -714,18 +840,41 @@ Proof.
   assert (Hc : o_choices o = chs).
   { rewrite Ho. destruct (with_hook_output_fields (join_result (cur_pid s) btxt ptxt bds pds chs j) h) as (F1 & _).
     rewrite F1. reflexivity. }
-  rewrite Hc. exists p, s2, s3. split; [exact Hp|]. split; [exact Hf|]. split; [exact Hj|].
+  rewrite Hc. exists p, btxt, jb, bds, s1, toks, ptxt, j, pds, s2, s3.
+  split; [exact Hp|]. split; [exact Hb|]. split; [exact Ht|]. split; [exact Hm|]. split; [exact Hf|].
+  split; [exact Hj|].
   pose proof (filter_choices_section orc ctxkeys _ _ _ _ _ Hf) as Hsec.
-  split; [|split].
+  split.
   - eapply Forall_impl; [|exact Hsec]. intros rc (dt & fd & Hin & Hd).
-    apply section_cands_in in Hin. destruct Hin as (c0 & E & Hin & Hs0). inversion E; subst. auto.
-  - eapply Forall_impl; [|exact Hsec]. intros rc (dt & fd & Hin & Hd).
-    apply section_cands_in in Hin. destruct Hin as (c0 & E & Hin & Hs0). inversion E; subst.
-    exists None, false. split; [|exact Hs0]. unfold passage_cands. apply in_or_app. left.
-    apply in_map_iff. exists (rc_choice rc). auto.
-  - intros Pc. pose proof (section_cands_pure p (S (cur_section s)) Pc) as Pp.
+    apply join_cands_in in Hin. destruct Hin as [(c0 & E & Hin & Hs0)|(c0 & t & E & Hin)]; inversion E; subst.
+    + left. auto.
+    + right. exists t. apply dir_choices_in. exact Hin.
+  - intros Pc Pb. pose proof (join_cands_pure p (S (cur_section s)) _ Pc Pb) as Pp.
     rewrite (filter_choices_spec orc ctxkeys _ _ s2 Pp) in Hf. inversion Hf; subst.
-    split; [reflexivity|]. rewrite keep_section_cands. reflexivity.
+    split; [reflexivity|]. apply shown_join_cands.
+Qed.
+
+(* the special case without block choices in the section text: exactly the passage-level choices of the next
+   section, by the same formula as for the first section (C02 offered_exactly_enabled with no block choices) *)
+Lemma join_choice_offers_no_block_choices c s s' o :
+  execute_join_choice orc ctxkeys st c s = (s', Ok o) ->
+  exists p s1 toks ptxt j pds s2,
+    get_passage st (cur_pid s) = Some p /\
+    join_tokens p (cur_section s) = Ok toks /\
+    render_content orc ctxkeys toks s1 = (s2, Ok (ptxt, j, pds)) /\
+    (dir_choices pds = [] ->
+     Forall (fun rc => In (rc_choice rc) (choices p) /\ ch_section (rc_choice rc) = S (cur_section s)) (o_choices o) /\
+     (Forall pure_choice (choices p) ->
+      o_choices o = map (shown orc ctxkeys s2)
+                        (filter (keep orc ctxkeys s2 (S (cur_section s))) (passage_cands p [])))).
+Proof.
+  intros H. apply join_choice_offers in H.
+  destruct H as (p & btxt & jb & bds & s1 & toks & ptxt & j & pds & s2 & s3 & Hp & Hb & Ht & Hm & Hf & Hj & Hin & Hpure).
+  exists p, s1, toks, ptxt, j, pds, s2. split; [exact Hp|]. split; [exact Ht|]. split; [exact Hm|].
+  intros Hn. split.
+  - eapply Forall_impl; [|exact Hin]. intros rc [A|(t & B)]; [exact A|].
+    apply dir_choices_in in B. rewrite Hn in B. destruct B.
+  - intros Pc. rewrite Hn in Hpure. destruct (Hpure Pc (Forall_nil _)) as [_ E]. rewrite E. cbn. apply app_nil_r.
 Qed.
 
 End WithOracle.
